@@ -24,7 +24,7 @@ func init() {
 			"proceeds to rate limiting. The single exception is the FORMERR answer for a malformed ECS option, which " +
 			"C05 demands and which is written before any access decision.",
 		NotCovered: "what the urlfilter engines behind IsBlockedHost / blockedHostsEng match; effects inside third-party libraries reached from the access decision.",
-		Rules: map[string]string{"C10-R11": "early (default) returns of the profile converters are guarded only by nil / Enabled tests of the input, never by its contents", "C10-R10": "codecs return a nil sub-message only for a nil input; access.Global keeps the whole configured subnet list and IsBlockedIP is a membership test on it",
+		Rules: map[string]string{"C10-R12": "agdnet.NormalizeDomain is ToLower(TrimSuffix(name, \".\")); hand-written ASCII classes use inclusive boundaries", "C10-R11": "early (default) returns of the profile converters are guarded only by nil / Enabled tests of the input, never by its contents", "C10-R10": "codecs return a nil sub-message only for a nil input; access.Global keeps the whole configured subnet list and IsBlockedIP is a membership test on it",
 			"C10-R1": "decision tables of isBlockedByNets, matchASNs, IsBlocked, isBlockedByAccess",
 			"C10-R2": "Wrap closure: location stored before the decision; blocked edge silent; other edge proceeds",
 			"C10-R4": "question names are normalised before they are matched against access rules",
@@ -52,6 +52,27 @@ func runC10(c *an.Ctx) {
 		c.Und("C10-R10", "optional sub-messages are nil only when absent", token.NoPos, "only %d nil returns found", n)
 	}
 	c10Global(c)
+	// ---- R12: the name that the blocked-name rules are matched against is the lower-cased question name
+	c.Floor("C10-R12", 1)
+	decide(c, "C10-R12", "agdnet.NormalizeDomain", an.DecideCfg{
+		Dom: an.Domain{},
+		OnCall: func(it *an.Interp, name string, args []an.AV) (an.AV, bool) {
+			switch name {
+			case "strings.ToLower":
+				return an.Sym("lower(" + args[0].String() + ")"), true
+			case "strings.TrimSuffix":
+				return an.Sym("trim(" + args[0].String() + "," + args[1].String() + ")"), true
+			}
+			return an.AV{}, false
+		},
+		Expect: func(f an.Features, o an.AOutcome) string {
+			if got := o.RetString(); got != `lower(trim(p0,"."))` && got != `trim(lower(p0),".")` {
+				return "the name without its trailing dot, lower-cased as a whole; got " + got
+			}
+			return ""
+		},
+	})
+	c.Inf("C10-R12", "character classes", token.NoPos, "%d comparisons of a character with a class boundary examined in the whole repository", sharedCharRanges(c, "C10-R12", ""))
 	// ---- R11: converters of profile settings return a default early only for absent or disabled input
 	if n := sharedCodecGuards(c, "C10-R11", nil, "backendpb.", "profiledb/internal/filecachepb."); n < 5 {
 		c.Und("C10-R11", "early returns of the profile codecs", token.NoPos, "only %d early returns found", n)
